@@ -303,14 +303,14 @@ class PolyEnv:
 
     def atom_name(self, e: ast.AST) -> str:
         if isinstance(e, ast.Subscript):
-            return f"{self.atom_name(e.value) if not isinstance(e.value, (ast.Name, ast.Attribute)) else self.poly(e.value).canon()}[{self._slice(e.slice)}]"
+            return f"{self._operand(e.value)}[{self._slice(e.slice)}]"
         if isinstance(e, ast.Call) and dotted(e.func) in ("tuple", "list") and len(e.args) == 1 and not e.keywords:
             inner = self.atom_name(e.args[0]) if isinstance(e.args[0], (ast.List, ast.Tuple, ast.ListComp, ast.GeneratorExp)) else None
             if inner is not None and inner[:1] in "[(" and inner[-1:] in "])":
                 # tuple([...]) / list((...)) of a literal sequence is that sequence
                 return ("(" + inner[1:-1] + ")") if dotted(e.func) == "tuple" else ("[" + inner[1:-1] + "]")
         if isinstance(e, ast.Call):
-            fn = dotted(e.func) or self.atom_name(e.func)
+            fn = dotted(e.func) or self._operand(e.func)
             pos = list(e.args)
             kws = list(e.keywords)
             sig = KW_POSITIONS.get(fn)
@@ -357,7 +357,7 @@ class PolyEnv:
         if isinstance(e, ast.Tuple):
             return "(" + ", ".join(self._arg(x) for x in e.elts) + ")"
         if isinstance(e, ast.Attribute):
-            return f"{self._arg(e.value)}.{e.attr}"
+            return f"{self._operand(e.value)}.{e.attr}"
         if isinstance(e, ast.Starred):
             return "*" + self._arg(e.value)
         if isinstance(e, (ast.ListComp, ast.SetComp, ast.GeneratorExp, ast.DictComp)):
@@ -413,6 +413,17 @@ class PolyEnv:
             return "{" + f"{self._arg(e.key)}: {self._arg(e.value)} {gens}" + "}"
         o, c = {"ListComp": "[]", "SetComp": "{}", "GeneratorExp": "()"}[type(e).__name__]
         return f"{o}{self._arg(e.elt)} {gens}{c}"
+
+    def _operand(self, e: ast.AST) -> str:
+        """Canonical text usable as the operand of `.attr`, `[...]` or a call: compound polynomials are parenthesised."""
+        try:
+            p = self.poly(e)
+        except AnalysisError:
+            raise
+        except Exception:
+            return " ".join(ast.unparse(e).split())
+        single = len(p.t) == 1 and next(iter(p.t.values())) == 1 and len(next(iter(p.t))) == 1 and next(iter(p.t))[0][1] == 1
+        return p.canon() if single or p.is_const() else f"({p.canon()})"
 
     def _arg(self, e: ast.AST) -> str:
         try:
